@@ -56,6 +56,10 @@ func (c *Ctx) rejects(fnName, label string, succ func(*ssa.Function) func(ssa.In
 	}
 	c.Sites += len(edges)
 	if len(edges) == 0 {
+		if h, ok := c.rejectsThroughHelper(fn, succ, conj); ok {
+			c.add("discharged", "R-VSET", FuncName(fn), label, w.Pos(fn.Pos()), "the rejecting branch sits in the helper "+h+": no accepting return of the helper is reachable from it, and the function has no success exit once the helper refused", 0)
+			return
+		}
 		c.Fail("R-VSET", fnName, label, w.Pos(fn.Pos()), "anchor lost / unrecognised idiom: no branch edge in the function carries this rejecting condition")
 		return
 	}
@@ -121,7 +125,12 @@ func runC19(c *Ctx) {
 	ptl := pkASN1 + ".parseTagAndLength"
 	c.rejects(ptl, "high-tag-number form used for a tag number < 31", successExit, Cmp(exprIs("ret.tag"), "lt", ConstInt(0x1f)))
 	c.rejects(ptl, "indefinite length (0 length octets)", successExit, Cmp(exprHas("&127)"), "eq", ConstInt(0)))
-	c.rejects(ptl, "superfluous leading zero octet in a long-form length", successExit, Cmp(exprIs("ret.length"), "eq", ConstInt(0)))
+	// (the accumulated length, read back from ret.length or still in a register as (length<<8)|octet)
+	accLen := AnyV(exprIs("ret.length"), func(v ssa.Value) bool {
+		e := Expr(v)
+		return strings.HasPrefix(e, "((") && strings.Contains(e, "length<<8)|")
+	})
+	c.rejects(ptl, "superfluous leading zero octet in a long-form length", successExit, Cmp(accLen, "eq", ConstInt(0)))
 	c.rejects(ptl, "long-form length < 128 (strict)", successExit, strict, Cmp(exprIs("ret.length"), "lt", ConstInt(0x80)))
 	// ---- tags and lengths (cryptobyte)
 	ra := cbFn("readASN1")
